@@ -110,6 +110,11 @@ def run_c17(prop, tier, seed, replay=None):
                 r = run_tlc("MCLifecycle", "Lifecycle_%s_%s.cfg" % (s1, s2), workers=4, timeout=600)
                 require_ok(r, "Lifecycle %s/%s" % (s1, s2))
                 v.add_tlc("Lifecycle_%s_%s.cfg" % (s1, s2), r)
+        # HelpersEnd is not vacuous: a fetch that does not watch the loop's context outlives the torrent
+        r = run_tlc("MCLifecycle", "Lifecycle_fetch_dev.cfg", workers=2, timeout=600)
+        if r.violation != "temporal":
+            raise Internal("Lifecycle_fetch_dev.cfg: the deviation is not refuted (%s / %s)" % (r.violation, r.error))
+        os.unlink(r.outfile)
         reps = 1 if tier == "quick" else 12
         scen = [{"kind": "lifecycle", "steps": [{"op": op, "stop": stop}]} for _ in range(reps) for op in OPS for stop in ("dead", "behind", "ahead")]
         scen += [{"kind": "lifecycle", "steps": [{"op": "Backlog", "stop": "behind"}]} for _ in range(2 * reps)]
@@ -119,7 +124,15 @@ def run_c17(prop, tier, seed, replay=None):
         scen += [{"kind": "killhash", "steps": []} for _ in range(2 * reps)]
         for i, sc in enumerate(scen):
             sc["id"] = i
+    if replay and scen[0].get("binding") == "webseed":
+        import p_webseed
+        p_webseed.kill_probe(v, prop, tier, seed, scen)
+        return v.finish()
     applied, stats = harness(v, prop, scen, parallel=6, timeout=90)
+    if not replay:
+        # the torrent's other helpers: an outstanding web-seed fetch ends with the torrent
+        import p_webseed
+        p_webseed.kill_probe(v, prop, tier, seed)
     v.cov["traces_validated_against_impl"] = len(scen)
     v.cov["evaluations"] = len(scen)
     v.cov["distinct_nontrivial"] = len({json.dumps(s["steps"], sort_keys=True) for s in scen})
